@@ -357,7 +357,7 @@ package log
 
 //@ func PutEvent
 //@   synchronous[C20]
-//@   requires e != nil
+//@   requires e != nil && !pooled[e]  // an event is released once, by its owner
 //@   modifies *e, pooled[e]
 //@   ensures[C03:released] pooled[e]
 //@   ensures[C03:reset] e.Level == NoneLevel && e.Tag == "" && e.Fields == nil && e.CtxFields == nil && e.File == "" && e.Line == 0 && e.CtxString == ""
